@@ -397,8 +397,13 @@ class Emitter:
             L += self.cxx_class()
         if fl.nr or fl.r:
             if o.get("input", "yyinput_macro") == "yyinput_macro":
-                L.append("#define YY_INPUT(buf,result,max_size) do { (result) = vf_read(%s, yyin, "
-                         "(buf), (size_t) (max_size)); } while (0)" % C)
+                if case.get("driver", {}).get("multi"):
+                    L.append("#include <sched.h>")
+                    L.append("#define YY_INPUT(buf,result,max_size) do { if ((%s->nev & 3) == 1) sched_yield(); "
+                             "(result) = vf_read(%s, yyin, (buf), (size_t) (max_size)); } while (0)" % (C, C))
+                else:
+                    L.append("#define YY_INPUT(buf,result,max_size) do { (result) = vf_read(%s, yyin, "
+                             "(buf), (size_t) (max_size)); } while (0)" % C)
             L.append("#define YY_FATAL_ERROR(msg) vf_fatal(%s, (msg))" % C)
         if "bufhelpers" in self.uses:
             pa = ", yyscan_t yyscanner" if fl.a0 else ""
@@ -612,8 +617,98 @@ class Emitter:
         L.append("}")
         return L
 
+    def driver_multi(self):
+        """Several instances of one scanner in one program: argv = mode seed N (pack log)*N.
+        mode 'i': one thread, yylex calls interleaved by a seeded schedule;
+        mode 't': one thread per instance (run under ThreadSanitizer)."""
+        case, o, fl = self.case, self.o, self.fl
+        L = ["#include <pthread.h>", "#include <sched.h>"]
+        if fl.cxx:
+            L.append("int yyFlexLexer::yywrap() { return 1; }")
+        else:
+            L.append("int yywrap(yyscan_t yyscanner) { struct vf_ctx *c = %s; (void) yyscanner; "
+                     "vf_W(c, c->wrapk++, 1); return 1; }" % C)
+        if fl.c99:
+            L.append("static int yyread(char *buf, size_t max_size, struct yyguts_t *yyscanner) {")
+            L.append("\tif ((%s->nev & 3) == 1) sched_yield();" % C)
+            L.append("\treturn vf_read(%s, yyget_in(yyscanner), buf, max_size);" % C)
+            L.append("}")
+        if fl.r:
+            L.append("static int vf_start_r(yyscan_t yyscanner) { "
+                     "struct yyguts_t *yyg = (struct yyguts_t *) yyscanner; return yystart(); }")
+        L.append("#define VF_MAXINST 32")
+        L.append("static struct vf_ctx *vf_inst[VF_MAXINST]; static int vf_done[VF_MAXINST];")
+        L.append("static int vf_inside, vf_maxinside; static pthread_barrier_t vf_bar;")
+        if fl.cxx:
+            L.append("static VfLexer *vf_lex[VF_MAXINST];")
+            call = "vf_lex[i]->yylex()"
+            start = "vf_lex[i]->vf_start()"
+        else:
+            L.append("static yyscan_t vf_scn[VF_MAXINST];")
+            call = "yylex(vf_scn[i])"
+            start = ("yystart(vf_scn[i])" if fl.c99 else "vf_start_r(vf_scn[i])")
+        L.append("static int vf_step(int i) { volatile int v; int n; %s = vf_inst[i];" % C)
+        L.append("\tif (setjmp(vf_inst[i]->jmp)) { __atomic_sub_fetch(&vf_inside, 1, __ATOMIC_SEQ_CST); "
+                 "vf_inst[i]->finished = 1; return 0; }")
+        L.append("\tn = __atomic_add_fetch(&vf_inside, 1, __ATOMIC_SEQ_CST);")
+        L.append("\t{ int m = __atomic_load_n(&vf_maxinside, __ATOMIC_SEQ_CST); while (n > m && "
+                 "!__atomic_compare_exchange_n(&vf_maxinside, &m, n, 0, __ATOMIC_SEQ_CST, __ATOMIC_SEQ_CST)) ; }")
+        L.append("\tv = %s;" % call)
+        L.append("\t__atomic_sub_fetch(&vf_inside, 1, __ATOMIC_SEQ_CST);")
+        L.append("\tvf_R(vf_inst[i], v, %s); return v; }" % start)
+        L.append("static void *vf_thread(void *a) { int i = (int) (long) a; "
+                 "pthread_barrier_wait(&vf_bar); "
+                 "while (vf_step(i) != 0) { if ((vf_inst[i]->nev & 7) == 3) sched_yield(); } "
+                 "if (!vf_inst[i]->finished) vf_ev1(vf_inst[i], \"Z\"); return 0; }")
+        L.append("int main(int argc, char **argv) {")
+        L.append("\tint n, i, left; unsigned long rs; pthread_t th[VF_MAXINST];")
+        L.append("\tif (argc < 4) return 93;")
+        L.append("\trs = strtoul(argv[2], 0, 0); n = atoi(argv[3]); if (n < 1 || n > VF_MAXINST || argc < 4 + 2 * n) return 93;")
+        L.append("\tvf_install();")
+        L.append("\tfor (i = 0; i < n; ++i) {")
+        L.append("\t\tvf_inst[i] = (struct vf_ctx *) calloc(1, sizeof(struct vf_ctx));")
+        L.append("\t\tvf_load(vf_inst[i], argv[4 + 2 * i], argv[5 + 2 * i]); vf_inst[i]->use_jmp = 1;")
+        L.append("\t\t%s = vf_inst[i];" % C)
+        if fl.cxx:
+            L.append("\t\tvf_lex[i] = new VfLexer();")
+            L.append("\t\tvf_X(vf_inst[i], \"open 0\"); vf_inst[i]->cur_src = 0;")
+        else:
+            L.append("\t\tif (yylex_init(&vf_scn[i]) != 0) return 92;")
+            L.append("\t\tvf_X(vf_inst[i], \"open 0\"); yyset_in(vf_inst[i]->src[0].fp, vf_scn[i]); "
+                     "yyset_out(vf_inst[i]->out, vf_scn[i]);")
+        L.append("\t}")
+        L.append("\tif (argv[1][0] == 't') {")
+        L.append("\t\tpthread_barrier_init(&vf_bar, 0, (unsigned) n);")
+        L.append("\t\tfor (i = 0; i < n; ++i) pthread_create(&th[i], 0, vf_thread, (void *) (long) i);")
+        L.append("\t\tfor (i = 0; i < n; ++i) pthread_join(th[i], 0);")
+        L.append("\t} else {")
+        L.append("\t\tleft = n;")
+        L.append("\t\twhile (left > 0) {")
+        L.append("\t\t\tint burst; rs = rs * 6364136223846793005ul + 1442695040888963407ul;")
+        L.append("\t\t\ti = (int) ((rs >> 33) % (unsigned long) n); burst = 1 + (int) ((rs >> 20) & 3);")
+        L.append("\t\t\tif (argv[1][0] == 'r') { static int rr; i = rr++ % n; burst = 1; }")
+        L.append("\t\t\twhile (burst-- > 0 && !vf_done[i]) if (vf_step(i) == 0) { vf_done[i] = 1; left--; "
+                 "if (!vf_inst[i]->finished) vf_ev1(vf_inst[i], \"Z\"); }")
+        L.append("\t\t}")
+        L.append("\t}")
+        L.append("\tfor (i = 0; i < n; ++i) {")
+        L.append("\t\t%s = vf_inst[i];" % C)
+        if fl.cxx:
+            L.append("\t\tif (!vf_inst[i]->finished) delete vf_lex[i];")
+        else:
+            L.append("\t\tif (!vf_inst[i]->finished) yylex_destroy(vf_scn[i]);")
+        L.append("\t}")
+        L.append("\t{ char b[64]; snprintf(b, sizeof b, \"# max_concurrent %d\\n\", vf_maxinside); "
+                 "vf_puts(vf_inst[0], b); }")
+        L.append("\tvf_flush_all();")
+        L.append("\treturn 0;")
+        L.append("}")
+        return L
+
     def driver_c(self):
         case, o, fl = self.case, self.o, self.fl
+        if case.get("driver", {}).get("multi"):
+            return self.driver_multi()
         if fl.cxx:
             return self.driver_cxx()
         d = case.get("driver", {})
